@@ -198,7 +198,10 @@ func (node *DataMessage) SessionID() int {
 // SystemBytes returns the system bytes of the SECS-II message.
 // If the system bytes was not set, it will return []byte{0, 0, 0, 0}.
 func (node *DataMessage) SystemBytes() []byte {
-	return node.systemBytes
+	// return a copy: the slice is shared with the messages derived from this one
+	result := make([]byte, len(node.systemBytes))
+	copy(result, node.systemBytes)
+	return result
 }
 
 // SetSessionIDAndSystemBytes sets session id and system bytes to the message.
